@@ -18,7 +18,7 @@ import (
 func VerifC04_v5_more() {
 	q := newWireInt("q", true)
 	sidPresent := nondetBool("sid-present")
-	sid := nondetString("sid", 1) + nondetStringUpTo("sid-tail", 1)
+	sid := nondetString("sid", 1) + nondetStringUpTo("sid-tail", deep(1))
 	verifAssume(visible(sid))
 	body := &server.MoreRequestBody{}
 	rules := map[string]bool{}
